@@ -1,8 +1,11 @@
+mod failpoint;
 mod fault;
 mod log;
 mod prog;
 mod refint;
 mod single;
+mod sink;
+mod sync;
 mod util;
 mod world;
 mod camp;
